@@ -12,6 +12,15 @@
 (* which is source order, and appends what the visitor must produce to out.       *)
 (* Children are leaf markers N<i>.<k>, tokens T<i>.<k> with one free-floating     *)
 (* token F<i>.<k>, byte values V<i>.1 (i = slot index, k = item index).           *)
+(*                                                                               *)
+(* Two derived prescriptions (the harness derives them from `out`):               *)
+(*   Again  - a visitor is an object that may be used again: the same visitor     *)
+(*            walking the same instance a second time owes the same sequence      *)
+(*            again (Again(out) = out \o out; the printer may put one separating  *)
+(*            space in front of the second text);                                 *)
+(*   Shared - the walk is defined over SLOTS, not objects: when one node object   *)
+(*            stands in every child slot it is owed once per slot (every N<i>.<k> *)
+(*            of `out` becomes the one marker N0.0).                              *)
 EXTENDS NodeSchema, Lexemes, Naturals, Sequences, FiniteSets, TLC, Json
 
 CONSTANTS Mode,      \* "traverse", "print" or "dump"
@@ -22,6 +31,8 @@ CONSTANTS Mode,      \* "traverse", "print" or "dump"
 VARIABLES kind, base, pres, dev, opts, pc, out, phase
 
 vars == <<kind, base, pres, dev, opts, pc, out, phase>>
+
+Again(o) == o \o o
 
 N(k) == Len(Schema[k])
 Nam(k, i) == Schema[k][i][1]
